@@ -110,6 +110,30 @@ def gen_cases(rng, consts, n, tier):
     return cases, meta
 
 
+def gen_dsall(rng, consts, n):
+    """ds_contract stream: every data source of the registry, exactly sized result buffers at the sizes the three call sites pass,
+    environments / arguments / argv whose rendered length sits at size-2 .. size+2 and far above."""
+    sizes = sorted(set([consts["hardmin_ds"] + consts["call_ds_adj"], consts["hardmin_ds"] + consts["call_ds_adj"] + 1, consts["ident_buf"],
+                        1001, 2048, consts["path_buf"], 65536]))
+    cases = []
+    for k in range(n):
+        sz = rng.choice(sizes)
+        tot = max(1, sz + rng.choice([-3, -2, -1, 0, 1, 2, 60, 2 * sz]))
+        # environment whose comma-joined rendering has exactly `tot` bytes, split into 1..6 entries of "K<i>=vvv"
+        ne = rng.choice([1, 1, 2, 3, 6])
+        body = max(ne * 4, tot - (ne - 1))
+        lens = [body // ne] * ne
+        lens[-1] += body - sum(lens)
+        env = [(b"K%d=" % i) + b"v" * max(0, l - 3) for i, l in enumerate(lens)]
+        if rng.random() < 0.1:
+            env = None if rng.random() < 0.5 else []
+        arg = rng.choice([b"", b"K0", b"%Y-%m-%d", b"x" * tot, b"K0=", b"nosuch"])
+        file = b"/" + b"f" * rng.choice([0, 3, tot - 1 if tot < 70000 else 10])
+        argv = None if rng.random() < 0.1 else [b"a" * rng.choice([0, 1, tot // 2]), b"b" * rng.choice([0, tot // 2, tot])]
+        cases.append("\t".join(["dsall", str(sz), hexs(arg), hexs(file), hexlist(argv), hexlist(env)]))
+    return cases
+
+
 def corpus_cases():
     d = os.path.join(VERIF, "corpus", "C05")
     out = []
@@ -158,12 +182,37 @@ def check(run):
     consts = tr_expand(run)
     ok, failed, log = run.coq_props(["Properties_C05.v"])
     exe = build_impl(run)
-    n = 2500 if run.tier == "quick" else 60000
+    n = 2500 if run.tier == "quick" else 30000
     corp = corpus_cases()
     cases, meta = gen_cases(run.rng, consts, n, run.tier)
     allcases = corp + cases
     res = corr_stream(run, AREA, exe, allcases, spec_line=spec_line, stream="gen")
     nv = classify(run, res, allcases, "gen")
+    # ---- ds_contract: the hypothesis of C05_ds_bounded, checked on EVERY data source of the registry (implementation only)
+    dcases = gen_dsall(run.rng, consts, 120 if run.tier == "quick" else 2500)
+    dd = os.path.join(run.scratch, "dsall")
+    os.makedirs(dd, exist_ok=True)
+    open(os.path.join(dd, "cases.txt"), "w").write("".join(c + "\n" for c in dcases))
+    dout = run.run_impl(exe, os.path.join(dd, "cases.txt"), os.path.join(dd, "impl.out"))
+    ds_seen, ds_evals = set(), 0
+    for c, o in zip(dcases, dout):
+        sz = int(c.split("\t")[1])
+        f = o.split("\t")
+        if f[0] != "ok":
+            run.violation("dscontract:%s" % f[0], "sanitizer", "a data source left the buffer it was given (size %d): %s" % (sz, o[:200]),
+                          {"stream": "dsall", "failing_input": c, "impl_output": o, "cases": [c]})
+            nv += 1
+            continue
+        for item in f[1:]:
+            name, _, l = item.partition("=")
+            ds_seen.add(name)
+            ds_evals += 1
+            if l == "UNTERMINATED" or int(l) >= sz:
+                run.violation("dscontract:%s" % name, "spec_violation",
+                              "data source %s produced %s bytes for a buffer of %d (contract: strlen(result) < size, i.e. at most datasource_message_max_length bytes)" % (name, l, sz),
+                              {"stream": "dsall", "failing_input": c, "impl_output": o[:2000], "cases": [c]})
+                nv += 1
+                break
     if not ok:
         # proof obligation broken: the search above (boundary cases computed from the regenerated constants) is the search
         if nv == 0:
@@ -185,7 +234,8 @@ def check(run):
         "samples": [allcases[i][:300] for i in range(0, len(allcases), max(1, len(allcases) // 5))][:5],
         "distribution": {"sites": {s: sum(1 for m in meta if m["site"] == s) for s in ("log", "ident", "path")},
                          "corpus_cases": len(corp), "expansion_below_limit": fits, "mismatches": len(res["mismatch"]),
-                         "spec_failures": len(res["spec_bad"]), "impl_faults": len(res["faults"])},
+                         "spec_failures": len(res["spec_bad"]), "impl_faults": len(res["faults"]),
+                         "ds_contract_cases": len(dcases), "ds_contract_evaluations": ds_evals, "data_sources_exercised": len(ds_seen)},
         "traces_validated_against_impl": len(allcases) - len(res["mismatch"]),
     })
     return run.finish(
@@ -201,6 +251,20 @@ def replay(run, path):
     tr_expand(run)
     exe = build_impl(run)
     cases = rep.get("cases") or []
+    if rep.get("stream") == "dsall":
+        dd = os.path.join(run.scratch, "dsall")
+        os.makedirs(dd, exist_ok=True)
+        open(os.path.join(dd, "cases.txt"), "w").write("".join(c + "\n" for c in cases))
+        dout = run.run_impl(exe, os.path.join(dd, "cases.txt"), os.path.join(dd, "impl.out"))
+        bad = 0
+        for c, o in zip(cases, dout):
+            sz = int(c.split("\t")[1])
+            print("case:", c[:200]); print(" impl:", o[:1500])
+            f = o.split("\t")
+            if f[0] != "ok" or any(it.endswith("=UNTERMINATED") or int(it.partition("=")[2]) >= sz for it in f[1:]):
+                bad += 1
+        run.cleanup()
+        return 1 if bad else 0
     res = corr_stream(run, AREA, exe, cases, spec_line=spec_line, stream="replay")
     for i, c in enumerate(cases):
         print("case:", c[:200])
